@@ -114,6 +114,28 @@ Definition xcases (cb : cb_t) (p : string) : nat -> list (list stmt) -> list ele
     | body :: r => when_case p i (xlist cb (casep p i ^^ "b") 0 body) ++ xcases (S i) r
     end.
 
+(* well-formed source: break / continue only inside a loop *)
+Fixpoint wf_loops (inl : bool) (s : stmt) {struct s} : bool :=
+  let wl := fix wl (inl : bool) (ss : list stmt) {struct ss} : bool :=
+    match ss with [] => true | s :: r => wf_loops inl s && wl inl r end in
+  match s with
+  | SBreak | SContinue => inl
+  | SIf th el => wl inl th && wl inl el
+  | SWhile b => wl true b
+  | SWhen cases els =>
+      (fix wc (cs : list (list stmt)) : bool :=
+         match cs with [] => true | c :: r => wl inl c && wc r end) cases
+      && match els with None => true | Some el => wl inl el end
+  | _ => true
+  end.
+
+Fixpoint wf_list (inl : bool) (ss : list stmt) : bool :=
+  match ss with [] => true | s :: r => wf_loops inl s && wf_list inl r end.
+
+Definition wf_cases (inl : bool) : list (list stmt) -> bool :=
+  fix wc (cs : list (list stmt)) : bool :=
+    match cs with [] => true | c :: r => wf_list inl c && wc r end.
+
 (* a flow body: the flow-start match is a blocking element in front *)
 Definition expand (ss : list stmt) : list elem := EBlock :: xlist None "" 0 ss.
 
